@@ -41,7 +41,7 @@ Definition Format (x : Dec) (s : fstate) (verb : Z) : option bytes :=
             match buf with
             | c :: t =>
                 if c =? 45 then ([45], t)
-                else if c =? 43 then ((if f_space s then [32] else [43]), t)
+                else if c =? 43 then ((if f_space s && negb (f_plus s) then [32] else [43]), t)
                 else if f_plus s then ([43], buf)
                 else if f_space s then ([32], buf)
                 else ([], buf)
@@ -52,7 +52,7 @@ Definition Format (x : Dec) (s : fstate) (verb : Z) : option bytes :=
             | Some w => if blen sign + blen body <? w then w - blen sign - blen body else 0
             | None => 0
             end in
-          if f_zero s && negb (IsInf x) then Some (sign ++ zeros padding ++ body)
+          if f_zero s && negb (f_minus s) && negb (IsInf x) then Some (sign ++ zeros padding ++ body)
           else if f_minus s then Some (sign ++ body ++ repeat 32 (Z.to_nat padding))
           else Some (repeat 32 (Z.to_nat padding) ++ sign ++ body)
       end
